@@ -23,6 +23,7 @@ type Harness struct {
 	Cleanup    func()                             // per-execution cleanup
 	Observe    func(s *Sched, out Outcome) string // terminal observation (for outcome statistics / determinism check)
 	DaemonSite func(site string) bool
+	Priority   func(t *Thread) bool
 }
 
 type Options struct {
@@ -82,7 +83,7 @@ func Explore(h Harness, o Options) Stats {
 		stack = stack[:len(stack)-1]
 		var viols []Viol
 		cutAt := -1
-		cfg := Config{Order: o.Order, MaxSteps: o.MaxSteps, HarnessKey: h.Key, DaemonSite: h.DaemonSite}
+		cfg := Config{Order: o.Order, MaxSteps: o.MaxSteps, HarnessKey: h.Key, DaemonSite: h.DaemonSite, Priority: h.Priority}
 		var sref *Sched
 		choose := func(p *Point) int {
 			s := sref
@@ -175,7 +176,7 @@ func executeRef(cfg Config, root func(), choose func(p *Point) int, ref **Sched)
 
 // runOnce replays the given choices (then defaults) with tracing; returns log, outcome, observation.
 func runOnce(h Harness, o Options, choices []int, violsOut *[]Viol, trace bool) ([]string, Outcome, string) {
-	cfg := Config{Order: o.Order, MaxSteps: o.MaxSteps, HarnessKey: h.Key, DaemonSite: h.DaemonSite, Trace: trace}
+	cfg := Config{Order: o.Order, MaxSteps: o.MaxSteps, HarnessKey: h.Key, DaemonSite: h.DaemonSite, Priority: h.Priority, Trace: trace}
 	var sref *Sched
 	choose := func(p *Point) int {
 		i := len(sref.Points)
